@@ -16,7 +16,7 @@ def register(obj):
 
 
 def load_all():
-    from . import exchange, trade, broker, allocation, rebalancing, rebalance, exchange14, spaces, env, transmitter, chains  # noqa
+    from . import exchange, trade, broker, allocation, rebalancing, rebalance, exchange14, spaces, env, transmitter, chains, reset  # noqa
     REGISTRY["method:DiscretePortfolio.contains"] = spaces.discrete_contains_model
     REGISTRY["method:*.sample"] = spaces.space_sample
     REGISTRY["builtin:defaultdict"] = exchange14.empty_history
